@@ -427,3 +427,82 @@ Fixpoint rf_map_m {A B : Type} (f : A -> option B) (l : list A) : option (list B
   end.
 Definition rf_opt_map_m {A B : Type} (f : A -> option B) (o : option A) : option (option B) :=
   match o with Some x => y <- f x ;; Some (Some y) | None => Some None end.
+
+(* ===== adapters for tools/gen_fn_cansi.py (-> Generated/CansiFn.v) =====
+   Definitions only; nothing above uses them.  cansi 2.2.1 as TRANSLATED from the registry source
+   is proved equal to [rf_categorise] in Proofs/CansiGen.v. *)
+
+(* parsing.rs: struct Match { start, end, text } *)
+Record rf_match : Set := mkRfMatch { rfm_start : N; rfm_end : N; rfm_text : list N }.
+
+(* lib.rs: struct SGR, one setter per field (`sgr.fg = ..`) *)
+Definition set_cs_fg (g : rf_sgr) (v : option N) : rf_sgr :=
+  mkRfSgr v (cs_bg g) (cs_intensity g) (cs_italic g) (cs_underline g) (cs_blink g) (cs_reversed g) (cs_hidden g) (cs_strikethrough g).
+Definition set_cs_bg (g : rf_sgr) (v : option N) : rf_sgr :=
+  mkRfSgr (cs_fg g) v (cs_intensity g) (cs_italic g) (cs_underline g) (cs_blink g) (cs_reversed g) (cs_hidden g) (cs_strikethrough g).
+Definition set_cs_intensity (g : rf_sgr) (v : option N) : rf_sgr :=
+  mkRfSgr (cs_fg g) (cs_bg g) v (cs_italic g) (cs_underline g) (cs_blink g) (cs_reversed g) (cs_hidden g) (cs_strikethrough g).
+Definition set_cs_italic (g : rf_sgr) (v : option bool) : rf_sgr :=
+  mkRfSgr (cs_fg g) (cs_bg g) (cs_intensity g) v (cs_underline g) (cs_blink g) (cs_reversed g) (cs_hidden g) (cs_strikethrough g).
+Definition set_cs_underline (g : rf_sgr) (v : option bool) : rf_sgr :=
+  mkRfSgr (cs_fg g) (cs_bg g) (cs_intensity g) (cs_italic g) v (cs_blink g) (cs_reversed g) (cs_hidden g) (cs_strikethrough g).
+Definition set_cs_blink (g : rf_sgr) (v : option bool) : rf_sgr :=
+  mkRfSgr (cs_fg g) (cs_bg g) (cs_intensity g) (cs_italic g) (cs_underline g) v (cs_reversed g) (cs_hidden g) (cs_strikethrough g).
+Definition set_cs_reversed (g : rf_sgr) (v : option bool) : rf_sgr :=
+  mkRfSgr (cs_fg g) (cs_bg g) (cs_intensity g) (cs_italic g) (cs_underline g) (cs_blink g) v (cs_hidden g) (cs_strikethrough g).
+Definition set_cs_hidden (g : rf_sgr) (v : option bool) : rf_sgr :=
+  mkRfSgr (cs_fg g) (cs_bg g) (cs_intensity g) (cs_italic g) (cs_underline g) (cs_blink g) (cs_reversed g) v (cs_strikethrough g).
+Definition set_cs_strikethrough (g : rf_sgr) (v : option bool) : rf_sgr :=
+  mkRfSgr (cs_fg g) (cs_bg g) (cs_intensity g) (cs_italic g) (cs_underline g) (cs_blink g) (cs_reversed g) (cs_hidden g) v.
+
+(* lib.rs, mod v3: the struct literal of CategorisedSlice in with_sgr, seen through the pair (SGR, text) of
+   [rf_cat]: `start` / `end` (byte offsets of the slice, not read by anstyle-roff) are dropped *)
+Definition rf_cslice_mk (text : list N) (start end_ : N) (fg bg intensity : option N)
+    (italic underline blink reversed hidden strikethrough : option bool) : rf_cat :=
+  (mkRfSgr fg bg intensity italic underline blink reversed hidden strikethrough, text).
+
+(* std: str::starts_with(&str) on UTF-8 bytes *)
+Fixpoint rf_starts_with (s p : list N) : bool :=
+  match p with
+  | [] => true
+  | x :: p' => match s with y :: s' => (y =? x) && rf_starts_with s' p' | [] => false end
+  end.
+
+(* std: `s.chars().next()` and `char::len_utf8`.  A char is represented by its UTF-8 encoding: the first char of a
+   string is the prefix whose length the leading byte announces (1 for ASCII, 2 / 3 / 4 for C0.. / E0.. / F0..);
+   on valid UTF-8 (what a &str holds) that prefix is the encoding of the first char *)
+Definition rf_utf8_width (b : N) : N := if b <? 128 then 1 else if b <? 224 then 2 else if b <? 240 then 3 else 4.
+Definition rf_chars_next (s : list N) : option (list N) :=
+  match s with [] => None | b :: _ => Some (firstn (N.to_nat (rf_utf8_width b)) s) end.
+Definition rf_char_len_utf8 (c : list N) : N := N.of_nat (length c).
+
+(* std: RangeInclusive<u8>::contains *)
+Definition rf_range_incl_contains (r : N * N) (b : N) : bool := (fst r <=? b) && (b <=? snd r).
+
+(* std: Iterator::fold with a function whose translation is option-valued (None = panic) *)
+Fixpoint rf_fold_m {A B : Type} (f : A -> B -> option A) (l : list B) (a : A) : option A :=
+  match l with
+  | [] => Some a
+  | x :: t => a' <- f a x ;; rf_fold_m f t a'
+  end.
+
+(* ===== adapters for tools/gen_fn_roffcrate.py ===== *)
+(* (roff 0.2.1 src/lib.rs translated -> Generated/RoffCrateFn.v; definitions only, nothing above uses them) *)
+
+(* struct Roff { lines: Vec<Line> } = the list of its lines: the field getter / setter are identities *)
+Definition rf_roff_lines (d : list rf_line) : list rf_line := d.
+Definition rf_roff_set_lines (d : list rf_line) (l : list rf_line) : list rf_line := l.
+
+(* enum Apostrophes { Handle, DontHandle } with its derived PartialEq *)
+Inductive rf_apostrophes : Set := RfHandle | RfDontHandle.
+Definition rf_apostrophes_eqb (a b : rf_apostrophes) : bool :=
+  match a, b with
+  | RfHandle, RfHandle => true
+  | RfDontHandle, RfDontHandle => true
+  | _, _ => false
+  end.
+
+(* str::starts_with(<ASCII char>), str::contains(<ASCII char>) on the UTF-8 bytes *)
+Definition rf_starts_with_char (c : N) (s : list N) : bool :=
+  match s with x :: _ => x =? c | [] => false end.
+Definition rf_contains_char (c : N) (s : list N) : bool := existsb (N.eqb c) s.
